@@ -118,7 +118,7 @@ BOND_TEXT = {1: "", 2: "=", 3: "#", 1.5: ""}
 
 
 def spell(mol, rng, label_mode=None, explicit_single=0.05, variants=True,
-          ring_sym_side=None, mix_labels=False, roots=None, vrng=None):
+          ring_sym_side=None, mix_labels=False, roots=None, vrng=None, digits_after_branch=0.0):
     """Return (smiles, order, tags, marks): order[k] = gmol index of the k-th
     written atom; tags {gidx: '@'|'@@'}; marks {(gsrc,gdst): char written at
     src's side}."""
@@ -251,13 +251,9 @@ def spell(mol, rng, label_mode=None, explicit_single=0.05, variants=True,
             if item[0] == "text":
                 text.append(item[1])
                 continue
-            _, v, par = item
-            if par is not None:
-                write_bond_symbol(par, v)
-            write_atom(v)
-            order.append(v)
-            for (a, b) in ring_at[v]:
-                key = (a, b)
+            if item[0] == "ring":
+                _, v, key = item
+                a, b = key
                 other = a if v == b else b
                 if key in in_use:
                     l = in_use[key]
@@ -269,15 +265,24 @@ def spell(mol, rng, label_mode=None, explicit_single=0.05, variants=True,
                     in_use[key] = l
                     write_bond_symbol(v, other, ring=True, closing=False)
                     text.append(label_text(l))
+                continue
+            _, v, par = item
+            if par is not None:
+                write_bond_symbol(par, v)
+            write_atom(v)
+            order.append(v)
             ch = children[v]
-            items = []
-            for k, w in enumerate(ch):
-                if k < len(ch) - 1:
-                    items.append(("text", "("))
-                    items.append(("atom", w, v))
-                    items.append(("text", ")"))
-                else:
-                    items.append(("atom", w, v))
+            units = [[("ring", v, key)] for key in ring_at[v]]
+            branches = [[("text", "("), ("atom", w, v), ("text", ")")] for w in ch[:-1]]
+            if branches and units and rng.random() < digits_after_branch:
+                # non-standard but accepted: ring-closure digits written after (some) branches
+                units = units + branches
+                rng.shuffle(units)
+            else:
+                units = units + branches
+            items = [it for u in units for it in u]
+            if ch:
+                items.append(("atom", ch[-1], v))
             for it in reversed(items):
                 wstack.append(it)
         frag_texts.append("".join(text))
